@@ -92,6 +92,33 @@ def quad_mesh(nx, ny, L=1.0, H=1.0):
     return Mesh({ElemType.QUAD4: g})
 
 
+def mixed_mesh(nx, ny, L=1.0, H=1.0):
+    """TRI3 + QUAD4 of the same (main) dimension sharing one coordinates array, with a SEG2 boundary group:
+    left half of the columns in quads, right half split into triangles"""
+    xs = np.linspace(0, L, nx + 1)
+    ys = np.linspace(0, H, ny + 1)
+    coord = np.array([[x, y, 0.0] for y in ys for x in xs])
+    quads, tris = [], []
+    for j in range(ny):
+        for i in range(nx):
+            n0 = j * (nx + 1) + i
+            q = [n0, n0 + 1, n0 + nx + 2, n0 + nx + 1]
+            if i < max(1, nx // 2):
+                quads.append(q)
+            else:
+                tris.append([q[0], q[1], q[2]])
+                tris.append([q[0], q[2], q[3]])
+    segs = [[j * (nx + 1), (j + 1) * (nx + 1)] for j in range(ny)]   # the edge x = 0
+    gT = GroupElemFactory.Create(ElemType.TRI3, np.array(tris), coord)
+    gQ = GroupElemFactory.Create(ElemType.QUAD4, np.array(quads), coord)
+    gS = GroupElemFactory.Create(ElemType.SEG2, np.array(segs), coord)
+    mesh = Mesh({ElemType.SEG2: gS, ElemType.TRI3: gT, ElemType.QUAD4: gQ})
+    left = np.array([j * (nx + 1) for j in range(ny + 1)])
+    for g in (gT, gQ, gS):
+        g.Set_Tag(left, "LEFT")
+    return mesh
+
+
 def seg_mesh(n, L=1.0):
     coord = np.array([[x, 0.0, 0.0] for x in np.linspace(0, L, n + 1)])
     conn = np.array([[i, i + 1] for i in range(n)])
@@ -129,9 +156,15 @@ class Adapter:
             kw["alpha"] = 1 / 6
         simu.Solver_Set_Hyperbolic_Algorithm(dt=dt_explicit if algo == AlgoType.euler_explicit else dt_implicit, algo=algo, **kw)
 
+    mixed = False          # case option: meshes with several element types of the main dimension
+    supports_mixed = False
+    elem_results = []      # element-wise Result() names compared (nodeValues=False) at every restore
+
     def new_mesh(self):
         nx, ny = MESH_SHAPES[self.nmesh_made % len(MESH_SHAPES)]
         self.nmesh_made += 1
+        if self.mixed and self.supports_mixed:
+            return mixed_mesh(max(nx, 2), ny)
         return quad_mesh(nx, ny)
 
     def live(self, simu):
@@ -168,6 +201,8 @@ class ElasticStatic(Adapter):
     name = "Elastic_static"
     keys = ["displacement"]
     results = ["displacement"]
+    supports_mixed = True
+    elem_results = ["Svm", "Exx"]
 
     def build(self, folder):
         mat = Models.Elastic.Isotropic(2, E=210000.0, v=0.3, planeStress=True, thickness=1.0)
@@ -201,6 +236,7 @@ class ThermalStatic(Adapter):
     name = "Thermal_static"
     keys = ["thermal"]
     results = ["thermal"]
+    supports_mixed = True
 
     def build(self, folder):
         return Simulations.Thermal(self.new_mesh(), Models.Thermal(k=1, c=1, thickness=1.0), folder=folder, verbosity=False)
@@ -379,6 +415,10 @@ ADAPTERS = {a.name: a for a in (ElasticStatic, ElasticDyn, ThermalStatic, Therma
                                 HyperElastic, HyperElasticDyn, InElastic, WeakFormsStatic)}
 
 
+def group_order(mesh):
+    return [str(et) for et in mesh.dict_groupElem] + ["|"] + [str(g.elemType) for g in mesh.Get_list_groupElem(mesh.dim)]
+
+
 def mesh_sig(mesh):
     h = hashlib.sha1()
     h.update(np.ascontiguousarray(mesh.coord).tobytes())
@@ -392,9 +432,11 @@ def mesh_sig(mesh):
 
 
 class Run:
-    def __init__(self, case, root):
+    def __init__(self, case, root, load_shift=0):
         self.case = case
+        self.load_shift = load_shift
         self.ad = ADAPTERS[case["sim"]]()
+        self.ad.mixed = bool(case.get("mixed"))
         self.ad.algo = case.get("algo")
         self.ad.alpha = case.get("alpha")
         self.rates_nonzero = 0   # saved iterations whose rate fields (v, a / thermalDot) were all non-zero
@@ -410,6 +452,7 @@ class Run:
         self.events = []
         self.last_store = {}
         self.corrupt = {}
+        self.loaded = False
         self.mesh_id = 0        # the harness's own count of mesh assignments (index of the current mesh in the history)
         self.cur_mesh = 0
         self.load_of = {}       # first token of a Solve -> load counter used (a Solve re-using tokens replays that load)
@@ -433,7 +476,7 @@ class Run:
     def obs(self):
         s = self.simu
         return {"live": [sha(x) for x in self.ad.live(s)], "mesh": int(s._Simu__indexMesh), "nmesh": int(s.Nmesh),
-                "mesh_sig": mesh_sig(s.mesh), "niter": int(s.Niter), "store": self.store_obs()}
+                "mesh_sig": mesh_sig(s.mesh), "group_order": group_order(s.mesh), "niter": int(s.Niter), "store": self.store_obs()}
 
     def fail(self, kind, step, detail):
         self.fails.append({"kind": kind, "step": step, "detail": detail, "wrote": list(self.wrote)})
@@ -451,6 +494,12 @@ class Run:
         if badi:
             self.fail("restore-internal", step, {"iter": i, "via": via, "internal": badi})
         self.cur_mesh = g[0]
+        if group_order(s.mesh) != g[5]:
+            self.fail("load-mesh-group-order", step, {"iter": i, "via": via, "group_order": group_order(s.mesh), "expected": g[5]})
+        if not bad:
+            bade = [nm for nm in self.ad.elem_results if sha(s.Result(nm, nodeValues=False)) != sha(g[6][nm])]
+            if bade:
+                self.fail("element-results", step, {"iter": i, "via": via, "results": bade, "after_load_simu": self.loaded})
         if int(s._Simu__indexMesh) != g[0] or mesh_sig(s.mesh) != g[1]:
             self.fail("restore-mesh", step, {"iter": i, "via": via, "indexMesh": int(s._Simu__indexMesh), "expected": g[0]})
 
@@ -497,8 +546,8 @@ class Run:
                         self.fail("continuation-differs", n, {"field": ad.keys[k], "max_abs_diff": d, "scale": sc})
                     self.reg.setdefault(str(t), []).append(sha(a))   # a replay may differ in the last bits
             else:
-                ad.solve(s, self.nsolve % 7)
-                self.load_of[toks[0]] = self.nsolve % 7
+                ad.solve(s, (self.nsolve + self.load_shift) % 7)
+                self.load_of[toks[0]] = (self.nsolve + self.load_shift) % 7
                 self.nsolve += 1
                 for t, a in zip(toks, ad.live(s)):
                     self.reg[str(t)] = [sha(a)]
@@ -510,7 +559,8 @@ class Run:
             resv = []
             for rname in ad.results:
                 resv.append(None if rname is None else deep(s.Result(rname)))
-            self.ghost.append((self.cur_mesh, mesh_sig(s.mesh), live, resv, {k: deep(v) for k, v in ad.internal(s).items()}))
+            self.ghost.append((self.cur_mesh, mesh_sig(s.mesh), live, resv, {k: deep(v) for k, v in ad.internal(s).items()},
+                               group_order(s.mesh), {nm: deep(s.Result(nm, nodeValues=False)) for nm in ad.elem_results}))
             if ad.time_dependent and len(live) > 1 and all(not iszero(x) for x in live[1:]):
                 self.rates_nonzero += 1
             self.check_store_vs_ghost(n, "SaveIter")
@@ -605,6 +655,7 @@ class Run:
                 self.handed = []
                 return
             self.simu = Load_Simu(f)
+            self.loaded = True
             after = self.obs()
             if before != after:
                 diff = [k for k in before if before[k] != after[k]]
@@ -801,7 +852,26 @@ def probe_phasefield_save(root):
         return {"violates": True, "error_save": type(ex).__name__ + ": " + str(ex)[:200]}
 
 
-PROBES = {"phasefield_save": probe_phasefield_save, "phasefield_history": probe_phasefield_history, "inelastic_state": probe_inelastic_state,
+def probe_mesh_roundtrip(root):
+    """Mesh.Save / Load_Mesh of a mesh with two element types of the main dimension + a boundary group + tags"""
+    mesh = mixed_mesh(4, 3)
+    path = mesh.Save(os.path.join(root, "probeMesh"), "mixed")
+    from EasyFEA.FEM._mesh import Load_Mesh
+    m2 = Load_Mesh(path)
+    out = {"group_order_saved": group_order(mesh), "group_order_loaded": group_order(m2)}
+    out["order_ok"] = out["group_order_saved"] == out["group_order_loaded"]
+    out["coord_ok"] = sha(mesh.coord) == sha(m2.coord)
+    out["connect_ok"] = all(et in m2.dict_groupElem and sha(g.connect) == sha(m2.dict_groupElem[et].connect) for et, g in mesh.dict_groupElem.items())
+    out["connect_main_dim_ok"] = [sha(g.connect) for g in mesh.Get_list_groupElem(mesh.dim)] == [sha(g.connect) for g in m2.Get_list_groupElem(m2.dim)]
+    out["tags_ok"] = all(sorted(g._dict_nodes_tags) == sorted(m2.dict_groupElem[et]._dict_nodes_tags) and
+                         all(sha(np.sort(g._dict_nodes_tags[t])) == sha(np.sort(m2.dict_groupElem[et]._dict_nodes_tags[t])) for t in g._dict_nodes_tags)
+                         for et, g in mesh.dict_groupElem.items() if et in m2.dict_groupElem)
+    out["Ne_Nn_ok"] = (mesh.Ne, mesh.Nn) == (m2.Ne, m2.Nn)
+    out["violates"] = not all(out[k] for k in ("order_ok", "coord_ok", "connect_ok", "connect_main_dim_ok", "tags_ok", "Ne_Nn_ok"))
+    return out
+
+
+PROBES = {"mesh_roundtrip": probe_mesh_roundtrip, "phasefield_save": probe_phasefield_save, "phasefield_history": probe_phasefield_history, "inelastic_state": probe_inelastic_state,
           "algo_change": probe_algo_change, "init_shared": probe_init_shared,
           "save_then_folder_change": probe_save_then_folder_change}
 
@@ -832,7 +902,20 @@ def main():
     os.makedirs(root, exist_ok=True)
     res = {"cases": [], "probes": {}}
     for c in req.get("cases", []):
-        res["cases"].append(Run(c, root).run())
+        r = Run(c, root).run()
+        if c.get("twin"):
+            # a SECOND simulation of the same class (other loads, so other values) runs the same op list in the
+            # same process and the SAME folders, rewriting results0.. : every read through it must give ITS values
+            r2 = Run(c, root, load_shift=3).run()
+            for f in r2["fails"]:
+                f["second_simulation"] = True
+            r2["fails"] = r["fails"] + r2["fails"]
+            r2["error"] = r2["error"] or r["error"]
+            if r2["error"] and r2["error"] is not r["error"]:
+                r2["error"]["second_simulation"] = True
+            r2["twin"] = True
+            r = r2
+        res["cases"].append(r)
     for p in req.get("probes", []):
         try:
             with contextlib.redirect_stdout(io.StringIO()):
